@@ -353,6 +353,10 @@ pub enum LogEv {
         site: String,
     },
     EventCap,
+    /// another scrut process may have run between the previous entry and this one ("duo" runs)
+    Turn {
+        label: String,
+    },
     DrainBegin,
     DrainEnd {
         alive: u32,
